@@ -206,11 +206,11 @@ TOOL_LETTER = {'encode': 'e', 'gzip': 'g', 'etags': 't', 'caching': 'c', 'expire
 METHODS = ['GET', 'HEAD', 'POST']
 AES = ['-', 'gzip', 'identity', 'gzipq0', 'other', 'idq0']
 CONDS = ['-', 'star', 'match', 'other']
-ACS = ['-', 'utf8', 'latin1', 'ascii', 'star', 'ascii2']
+ACS = ['-', 'utf8', 'latin1', 'ascii', 'star', 'ascii2', 'l1u8']
 RANGES = ['-', 'bytes=2-5', 'bytes=2-5,7-9', 'bytes=50-', 'bytes=0-', 'bytes=-3', 'bytes=3-2', 'bytes=0-0,19-']
 PAGES = ['tmpl', 'short', 'empty', 'long', 'str', 'iter', 'raise', 'int', 'file']
 CTS = ['html', 'plain', 'json', 'octet', 'xml']
-EXT_KEYS = ('rh', 'acc', 'jin', 'noslash', 'sess', 'av', 'sf', 'er', 'xp', 'tb', 'encu', 'te', 'emsg')
+EXT_KEYS = ('rh', 'acc', 'jin', 'noslash', 'sess', 'av', 'sf', 'er', 'xp', 'tb', 'encu', 'te', 'emsg', 'fo', 'gzl')
 ERS = ['-', 'c503', 'c204', 'c999', 'r303', 'r304', 'r306']
 ENTS = ['-', 'ok', 'bad', 'nolen']
 KEY_CODES = {100, 200, 201, 204, 205, 206, 301, 303, 304, 305, 402, 404, 406, 410, 412, 416, 500}
@@ -297,7 +297,9 @@ def normalise(case):
     if 'encode' not in tools:
         ext.pop('encu', None)
     # one URI per history (the cache is keyed by it)
-    ns = int(any(int(r.get('ns', 0)) for r in c['reqs'])) if kind != 'R' else 0
+    ns = max(int(r.get('ns', 0)) for r in c['reqs']) if kind != 'R' else 0
+    if ns == 2 and ext.get('noslash'):
+        ns = 1        # (without the tool a path with a slash too many is simply another resource)
     for r in c['reqs']:
         r['ns'] = ns
         if r['m'] != 'POST' or not ext.get('jin'):
@@ -376,7 +378,7 @@ def model_ac(case, ac):
         ac = 'ascii'
     if (case.get('ext') or {}).get('encu'):
         # tools.encode.encoding = 'utf-8': tried only when the client admits it, never the 500 of the default path
-        return 'utf8' if ac in ('-', 'utf8', 'star') else 'none'
+        return 'utf8' if ac in ('-', 'utf8', 'star', 'l1u8') else 'none'
     return ac
 
 
@@ -420,7 +422,8 @@ def model_line(case):
         im = 'match' if r['im'].startswith('"') else r['im']
         reqs.append(','.join([r['m'], r['ae'], inm, im, model_ac(case, r['ac']), rg, r.get('cc', '-'),
                               str(r.get('t', 0)), str(r.get('proto', '11')), str(int(r.get('ims', 0))),
-                              str(int(bool(int(r.get('acc', 1))))), str(int(r.get('ns', 0))), r.get('ent', '-')]))
+                              str(int(bool(int(r.get('acc', 1))))), str(int(bool(int(r.get('ns', 0))))),
+                              r.get('ent', '-')]))
     hcl = 'N'
     if case['hcl']:
         hcl = str(R.own_length(case, R.parse_body(case['body'].split('|')[0])[1]))
@@ -882,9 +885,10 @@ def systematic_round2():
                     rq = req('POST', ae='gzip', ent=ent)
                     out.append(mk(b, st, tools, [req('GET', ae='gzip'), rq, req('GET', ae='gzip')] if hist else [rq],
                                   page=page, hcl=hcl, ext={'jin': 1}))
-                for noslash in (0, 1):
+                for noslash in (0, 1, 2):
                     for m in METHODS:
-                        rq = req(m, ae='gzip', ns=1)
+                        rq = req(m, ae='gzip', ns=2 if noslash == 2 else 1)
+                        noslash = noslash % 2
                         out.append(mk(b, st, tools, [rq, dict(rq)] if hist else [rq], page=page, hcl=hcl,
                                       ext={'noslash': noslash, 'sf': int(b == 'tgen')}))
     # tools.staticfile in front of the page handler: ranges, If-Modified-Since, methods, HTTP/1.0
@@ -904,7 +908,12 @@ def systematic_round2():
                         for proto in ('11', '10'):
                             rq = req(m, ae='gzip', rng=rg, proto=proto, ims=ims)
                             out.append(mk('static', st, tools, [rq, dict(rq)] if 'caching' in tools else [rq],
-                                          hcl=1))
+                                          hcl=1, ext={'fo': int(proto == '11'), 'gzl': 9 if ims else 1}))
+    for b in ('fileobj', 'efileobj'):
+        for tools in ([], ['gzip'], ['stream'], ['caching', 'gzip'], ['encode', 'etags']):
+            for m in METHODS:
+                rq = req(m, ae='gzip', rng='bytes=2-5')
+                out.append(mk(b, '-', tools, [rq, dict(rq)] if 'caching' in tools else [rq], ext={'fo': 1, 'gzl': 9}))
     # HTTP/1.0: the status of a redirect without one
     for st in ('r0', 'r303', 'e404', '-'):
         for tools in ([], ['gzip'], ['stream'], ['caching', 'expires']):
@@ -979,13 +988,15 @@ def random_ext(rng, tools):
     ext = {}
     if rng.random() < 0.35:
         for k, p in (('rh', 0.2), ('acc', 0.12), ('jin', 0.12), ('noslash', 0.1), ('sess', 0.2), ('av', 0.08),
-                     ('sf', 0.12), ('tb', 0.1), ('encu', 0.1), ('te', 0.1), ('emsg', 0.1)):
+                     ('sf', 0.12), ('tb', 0.1), ('encu', 0.1), ('te', 0.1), ('emsg', 0.1), ('fo', 0.15)):
             if rng.random() < p:
                 ext[k] = 1
         if rng.random() < 0.15:
             ext['er'] = rng.choice(ERS[1:])
         if 'expires' in tools and rng.random() < 0.5:
             ext['xp'] = rng.choice([1, 2, 3])
+        if 'gzip' in tools and rng.random() < 0.3:
+            ext['gzl'] = rng.choice([1, 9])
     return ext
 
 
@@ -1005,7 +1016,7 @@ def random_case(rng):
     reqs = []
     ae0 = rng.choice(AES) if rng.random() < 0.3 else ('gzip' if 'gzip' in tools else '-')
     ext = random_ext(rng, tools)
-    ns = int(rng.random() < 0.06)
+    ns = rng.choice([1, 2]) if rng.random() < 0.06 else 0
     proto0 = '10' if rng.random() < 0.08 else '11'
     for _ in range(nreq):
         reqs.append(req(rng.choice(['GET', 'GET', 'HEAD', 'POST']),
@@ -1065,6 +1076,27 @@ def regen_lattice():
                         yield normalise(mk(b, '-', tools, reqs, ct=ct, page='short'))
 
 
+def pre_lattice():
+    """the stages before the page handler / the other tools x every tool subset x three handlers x methods"""
+    kinds = [({'acc': 1}, dict(acc=0), '-'), ({'jin': 1}, dict(ent='bad'), '-'), ({}, dict(ns=1), '-'),
+             ({'sf': 1}, dict(rng='bytes=2-5', ims=0), '-'), ({'sf': 1}, dict(ims=1), '-'), ({'sess': 1}, {}, '-'),
+             ({'rh': 1}, {}, '-'), ({'er': 'c503'}, {}, 'x'), ({'er': 'r303'}, {}, 'x'), ({'xp': 1}, {}, '-'),
+             ({'av': 1}, {}, '-'), ({}, dict(proto='10', rng='bytes=2-5'), 'r0')]
+    for ext, rq, st in kinds:
+        for tools in ALL_SUBSETS:
+            for b in ('bytes', 'tgen', 'static', 'deep'):
+                for m in METHODS:
+                    r1 = req(m, ae='gzip', **rq)
+                    yield normalise(mk(b, st, tools, [req('GET', ae='gzip'), r1] if 'caching' in tools else [r1],
+                                       page='short', hcl=int(b == 'bytes'), ext=ext))
+    for b in XRPC:
+        for st in ('-', 'x', 'e404'):
+            for tools in ALL_SUBSETS:
+                for hs in (0, 1):
+                    r1 = req('POST', ae='gzip')
+                    yield normalise(mk(b, st, tools, [r1, dict(r1)] if 'caching' in tools else [r1], hstream=hs))
+
+
 def corpus_cases():
     d = os.path.join(common.CORPUS, PROPERTY)
     out = []
@@ -1101,6 +1133,9 @@ def run(ctx):
         regen = list(regen_lattice())
         process(ctx, regen, procs=procs)
         ctx.extra['exhaustive_regeneration_lattice'] = len(regen)
+        pre = list(pre_lattice())
+        process(ctx, pre, procs=procs)
+        ctx.extra['exhaustive_pre_handler_lattice'] = len(pre)
     ctx.extra['systematic_block'] = len(sysq)
     report_coverage(ctx)
 
